@@ -517,6 +517,8 @@ val existsb : ('a1 -> bool) -> 'a1 list -> bool
 
 val forallb : ('a1 -> bool) -> 'a1 list -> bool
 
+val seq : nat -> nat -> nat list
+
 type mark =
 | NM
 | PC
@@ -1433,3 +1435,23 @@ val exact_b : id0 list -> machine -> bool
 val no_panic_yet : machine -> bool
 
 val no_bad : machine -> bool
+
+val mem_nat : nat -> nat list -> bool
+
+val add_new : nat list -> nat list -> nat list
+
+val closure : (nat -> nat list) -> nat -> nat list -> nat list
+
+val strong_targets : obj -> id0 list
+
+val all_succ : machine -> id0 -> id0 list
+
+val traced_succ : prog -> machine -> id0 -> id0 list
+
+val unreported : prog -> machine -> id0 -> obj -> id0 list
+
+val pin_targets : prog -> machine -> id0 list
+
+val prog_roots : machine -> id0 list
+
+val cover_b : prog -> machine -> bool
